@@ -18,6 +18,8 @@
 (*   sty.longList   - always use the 0xF_ list header + varint size                        *)
 (*   sty.padVarint  - write sizes as over-long (one extra continuation byte) varints       *)
 (*   sty.falseByte  - byte used for FALSE elements of list<bool> (0 or 2, both occur)      *)
+(*   sty.padInts    - (optional field) write zig-zag integers and long-form field ids as    *)
+(*                    over-long varints (one extra continuation byte, at most 10 bytes)     *)
 EXTENDS Naturals, Sequences, SequencesExt, Bytes, W, Varint
 
 TypeId == [bool |-> 1, byte |-> 3, i16 |-> 4, i32 |-> 5, i64 |-> 6, double |-> 7, binary |-> 8,
@@ -31,7 +33,16 @@ DefaultStyle == [longField |-> FALSE, longList |-> FALSE, padVarint |-> FALSE, f
 
 \* ------------------------------------------------------------------ serialisation
 SizeVar(n, sty) == IF sty.padVarint THEN UvarNatEncLen(n, Len(UvarNatEnc(n)) + 1) ELSE UvarNatEnc(n)
-ZzWord(w) == UvarWEnc(ZigZagEnc(w))
+\* zig-zag varint of an 8-limb word. Fast paths on native integers for |w| < 2^30 (same result as
+\* the general limb-wise definition UvarWEnc(ZigZagEnc(w)); MC_ThriftSelf checks the agreement)
+ZzWordSlow(w) == UvarWEnc(ZigZagEnc(w))
+SmallNatW(w) == FitsNat(w) /\ w[4] < 64
+ZzWord(w) == IF SmallNatW(w) THEN UvarNatEnc(2 * ToNat(w))
+             ELSE IF IsNeg(w) /\ SmallNatW(NotW(w)) THEN UvarNatEnc((2 * ToNat(NotW(w))) + 1)
+             ELSE ZzWordSlow(w)
+PadVar(bs) == [i \in 1..Len(bs) |-> IF i = Len(bs) THEN bs[i] + 128 ELSE bs[i]] \o <<0>>
+HasPadInts(sty) == "padInts" \in DOMAIN sty /\ sty.padInts
+ZzWordS(w, sty) == LET m == ZzWord(w) IN IF HasPadInts(sty) /\ Len(m) < 10 THEN PadVar(m) ELSE m
 
 RECURSIVE SerVal(_, _)
 SerFields(fs, sty) ==
@@ -41,7 +52,7 @@ SerFields(fs, sty) ==
                 tid == IF isBool THEN (IF f.val.v THEN 1 ELSE 2) ELSE TypeId[f.val.t]
                 short == f.id > prev /\ f.id - prev <= 15 /\ ~sty.longField
                 hdr == IF short THEN <<(f.id - prev) * 16 + tid>>
-                       ELSE <<tid>> \o ZzWord(FromNat(f.id, 8))
+                       ELSE <<tid>> \o ZzWordS(FromNat(f.id, 8), sty)
                 body == IF isBool THEN <<>> ELSE SerVal(f.val, sty)
             IN <<acc[1] \o hdr \o body, f.id>>
     IN FoldLeft(step, <<<<>>, 0>>, fs)[1] \o <<0>>
@@ -53,7 +64,7 @@ SerListHdr(n, et, sty) == IF n < 15 /\ ~sty.longList THEN <<n * 16 + ElemTypeId(
 SerVal(x, sty) ==
     CASE x.t = "bool"   -> <<IF x.v THEN 1 ELSE sty.falseByte>>        \* only inside containers
       [] x.t = "byte"   -> <<x.v>>
-      [] x.t \in {"i16", "i32", "i64"} -> ZzWord(x.v)
+      [] x.t \in {"i16", "i32", "i64"} -> ZzWordS(x.v, sty)
       [] x.t = "double" -> x.v
       [] x.t = "binary" -> SizeVar(Len(x.v), sty) \o x.v
       [] x.t = "uuid"   -> x.v
@@ -73,6 +84,14 @@ TSer(x, sty) == SerVal(x, sty)
 MaxDepth == 64      \* the spec's own recursion guard; deeper inputs are reported as "too-deep"
 
 I16OfZz(w) == w     \* values are kept as sign-extended 64-bit words
+\* zig-zag varint at p -> sign-extended word. Encodings of at most 5 bytes and 31 bits take the
+\* native-integer path; everything else the limb-wise one (identical results)
+ZzParseSlow(bs, p) == LET z == UvarWParse(bs, p)
+                      IN IF ~z.ok THEN z ELSE [ok |-> TRUE, v |-> ZigZagDec(z.v), p |-> z.p]
+ZzParse(bs, p) == LET f == UvarNatParse(bs, p)
+                  IN IF f.ok THEN [ok |-> TRUE, p |-> f.p,
+                                   v |-> IF f.v % 2 = 0 THEN FromNat(f.v \div 2, 8) ELSE NotW(FromNat(f.v \div 2, 8))]
+                     ELSE ZzParseSlow(bs, p)
 
 RECURSIVE ParseVal(_, _, _, _)
 \* parse `n` elements of type id tid
@@ -96,9 +115,9 @@ ParseStruct(bs, p0, depth) ==
                     ELSE LET tid == h % 16
                              delta == h \div 16
                              idr == IF delta # 0 THEN [ok |-> TRUE, id |-> prev + delta, p |-> p + 1, neg |-> FALSE]
-                                    ELSE LET z == UvarWParse(bs, p + 1)
+                                    ELSE LET z == ZzParse(bs, p + 1)
                                          IN IF ~z.ok THEN z
-                                            ELSE LET w == ZigZagDec(z.v)
+                                            ELSE LET w == z.v
                                                  IN IF IsNeg(w) THEN [ok |-> TRUE, id |-> 0, p |-> z.p, neg |-> TRUE]
                                                     ELSE IF ~FitsNat(w) THEN Bad("field-id-wide")
                                                     ELSE [ok |-> TRUE, id |-> ToNat(w), p |-> z.p, neg |-> FALSE]
@@ -117,8 +136,8 @@ ParseVal(bs, p, tid, depth) ==
     ELSE CASE tid = 3 -> IF p > Len(bs) THEN Bad("truncated-byte")
                          ELSE [ok |-> TRUE, v |-> [t |-> "byte", v |-> bs[p]], p |-> p + 1]
       [] tid \in {4, 5, 6} ->
-            LET z == UvarWParse(bs, p)
-            IN IF ~z.ok THEN z ELSE [ok |-> TRUE, v |-> [t |-> TypeName(tid), v |-> ZigZagDec(z.v)], p |-> z.p]
+            LET z == ZzParse(bs, p)
+            IN IF ~z.ok THEN z ELSE [ok |-> TRUE, v |-> [t |-> TypeName(tid), v |-> z.v], p |-> z.p]
       [] tid = 7 -> IF ~HasBytes(bs, p, 8) THEN Bad("truncated-double")
                     ELSE [ok |-> TRUE, v |-> [t |-> "double", v |-> Slice(bs, p, 8)], p |-> p + 8]
       [] tid = 13 -> IF ~HasBytes(bs, p, 16) THEN Bad("truncated-uuid")
